@@ -54,11 +54,24 @@ def run(ctx, replay=None):
         stats.append(load_json(ctx.path("o%d.stats" % i)))
         fails += read_ndjson(ctx.path("o%d.fail" % i))
         sample += read_ndjson(ctx.path("o%d.obs" % i))
-    rows = sample + fails
+    # seeded random longer lists (<= 6 profile entries, <= 12 certificate entries) built from the real v1 extension types
+    nreal = 3000 if ctx.quick else 200000
+    rjobs = [["c08-real", "-count", nreal // 16, "-seed", ctx.seed * 50 + i, "-out", ctx.path("r%d.obs" % i), "-stats", ctx.path("r%d.stats" % i)] for i in range(16)]
+    ctx.driver_parallel(rjobs)
+    real = []
+    for i in range(16):
+        real += read_ndjson(ctx.path("r%d.obs" % i))
+    rstats = [load_json(ctx.path("r%d.stats" % i)) for i in range(16)]
+    rows = sample + fails + real
     for i, o in enumerate(rows, 1):
         o["id"] = i
     tla_failed = ctx.judge("MergeTrace", [_strip(o) for o in rows], "merge")
-    ctx.cross_check(rows, {o["id"]: [w for w in o.get("why", []) if w != "panic"] for o in fails}, tla_failed)
+    ctx.cross_check(sample + fails, {o["id"]: [w for w in o.get("why", []) if w != "panic"] for o in fails}, tla_failed)
+    for o in real:
+        cl = tla_failed.get(o["id"], []) + (["panic"] if o.get("panic") else [])
+        if cl:
+            ctx.violation("config.Merge on real extension types: profile=%s cert=%s -> %s : %s" % (o["p"], o["c"], o["out"], cl),
+                          {"kind": "merge-real", "p": o["p"], "c": o["c"], "observed": o["out"], "clauses": cl})
     for o in fails:
         rep = {"kind": "merge", "case": {"p": o["p"], "c": o["c"], "exp": [], "fails": False}, "observed": o["out"],
                "clauses": o["why"], "genFailed": o["genFailed"], "certExts": o["certExts"]}
@@ -75,6 +88,7 @@ def run(ctx, replay=None):
                 "certificate generation; cases are distinct by construction (set enumeration); non-trivial = both lists non-empty",
         "domains": ["profile<=%d x cert<=%d over %d OIDs" % (a, b, c) for (a, b, c, _) in domains],
         "generation_failed_cases": sum(s["generation_failed"] for s in stats),
+        "real_extension_type_lists": len(real), "real_lists_generation_failed": sum(s["generation_failed"] for s in rstats),
         "failing_observations": len(fails), "panics": sum(s["panics"] for s in stats),
         "exhaustive": True,
         "invariants_checked_by_tlc": ["MergeAlgo = MergeSpec", "certificate extensions kept", "length bound", "empty profile is identity",
